@@ -258,13 +258,30 @@ Qed.
 Theorem find_function_name_position_total : forall content line name,
   exists r, find_function_name_position content line name = Ok r.
 Proof.
-  intros content line name. unfold find_function_name_position.
+  intros content line name. unfold find_function_name_position, find_function_name_position_with.
   destruct (nth_opt (lines content) (line - 1)) as [lc|]; [|eauto].
-  destruct (find def_sp lc) as [def_pos|] eqn:Ef.
-  - unfold find in Ef. apply find_at_boundary in Ef as [k [_ H2]].
-    change (blen def_sp) with 4 in H2. rewrite H2, N.add_0_l, slice_from_prefix. cbn [of_opt rbind].
-    destruct (find name _); [eauto|]. destruct (find name lc); eauto.
-  - destruct (find name lc); eauto.
+  assert (K : forall kw def_pos, blen kw = 4 -> find kw lc = Some def_pos ->
+              exists r, (match (of_opt (slice_from lc (def_pos + 4)) >>= fun after_def =>
+                                Ok (match find name after_def with
+                                    | Some name_pos => Some (def_pos + 4 + name_pos, def_pos + 4 + name_pos + blen name)
+                                    | None => None
+                                    end)) with
+                         | Ok (Some r) => Ok r
+                         | Ok None => match find name lc with
+                                      | Some pos => Ok (pos, pos + blen name)
+                                      | None => Ok (0, blen name)
+                                      end
+                         | Panic => Panic
+                         | OutOfFuel => OutOfFuel
+                         end) = Ok r).
+  { intros kw def_pos Hk Ef. unfold find in Ef. apply find_at_boundary in Ef as [k [_ H2]].
+    rewrite Hk in H2. rewrite H2, N.add_0_l, slice_from_prefix. cbn [of_opt rbind].
+    destruct (find name _); [eauto|]. destruct (find name lc); eauto. }
+  unfold find_def_kw. destruct (find def_sp lc) as [def_pos|] eqn:Ef.
+  - exact (K def_sp def_pos eq_refl Ef).
+  - destruct (find def_tab lc) as [def_pos|] eqn:Et.
+    + exact (K def_tab def_pos eq_refl Et).
+    + destruct (find name lc); eauto.
 Qed.
 
 (** ** parameter_has_annotation: total by construction since fix 39fd031 *)
